@@ -45,6 +45,10 @@ def grid_list(N):
         ('free', {}), ('free', {'min': Fr(1, 100), 'max': Fr(5)}), ('free', {'localize_t0': True, 'min': Fr(1, 100)}),
         fam.G_FUN(N),
         ('function', dict(fam.G_FUN(N)[1], min=Fr(1, 100), max=Fr(5))),
+        # grids given by their normalized points only, with localized time variables
+        ('function', dict(fam.G_FUN(N)[1], localize_T=True)),
+        ('function', dict(fam.G_FUN(N)[1], localize_T=True, localize_t0=True)),
+        ('function', dict(fam.G_FUN(N)[1], localize_t0=True)),
     ]
     return gl
 
